@@ -432,25 +432,6 @@ func (w *Watcher) Run(ctx context.Context) error {
 						expectedConfirmations = uint64(pLock.message.ConsistencyLevel)
 					}
 
-					// Transaction was dropped and never picked up again
-					if pLock.height+expectedConfirmations+w.maxWaitConfirmations <= blockNumberU {
-						logger.Info("observation timed out",
-							zap.Stringer("tx", pLock.message.TxHash),
-							zap.Stringer("blockhash", key.BlockHash),
-							zap.Stringer("emitter_address", key.EmitterAddress),
-							zap.Uint64("sequence", key.Sequence),
-							zap.Stringer("current_block", ev.Number),
-							zap.Bool("is_safe_block", ev.Safe),
-							zap.Stringer("current_blockhash", currentHash),
-							zap.String("eth_network", w.networkName),
-							zap.Uint64("expectedConfirmations", expectedConfirmations),
-							zap.Uint64("maxWaitConfirmations", w.maxWaitConfirmations),
-						)
-						ethMessagesOrphaned.WithLabelValues(w.networkName, "timeout").Inc()
-						delete(w.pending, key)
-						continue
-					}
-
 					// Transaction is now ready
 					if pLock.height+expectedConfirmations <= blockNumberU {
 						timeout, cancel := context.WithTimeout(ctx, 5*time.Second)
@@ -465,7 +446,7 @@ func (w *Watcher) Run(ctx context.Context) error {
 						// Check multiple possible error cases - the node seems to return a
 						// "not found" error most of the time, but it could conceivably also
 						// return a nil tx or rpc.ErrNoResult.
-						if tx == nil || err == rpc.ErrNoResult || (err != nil && err.Error() == "not found") {
+						if (tx == nil && err == nil) || err == rpc.ErrNoResult || (err != nil && err.Error() == "not found") {
 							logger.Warn("tx was orphaned",
 								zap.Stringer("tx", pLock.message.TxHash),
 								zap.Stringer("blockhash", key.BlockHash),
@@ -478,6 +459,42 @@ func (w *Watcher) Run(ctx context.Context) error {
 								zap.Error(err))
 							delete(w.pending, key)
 							ethMessagesOrphaned.WithLabelValues(w.networkName, "not_found").Inc()
+							continue
+						}
+
+						// Any error other than "not found" is likely transient - we retry next block.
+						if err != nil {
+							// The node has failed to confirm the transaction for the whole abandonment window:
+							// give up. (This check must not run before the lookup above, or a head that
+							// advances by more than maxWaitConfirmations between two polls would drop a
+							// perfectly final message without ever asking for its receipt.)
+							if pLock.height+expectedConfirmations+w.maxWaitConfirmations <= blockNumberU {
+								logger.Info("observation timed out",
+									zap.Stringer("tx", pLock.message.TxHash),
+									zap.Stringer("blockhash", key.BlockHash),
+									zap.Stringer("emitter_address", key.EmitterAddress),
+									zap.Uint64("sequence", key.Sequence),
+									zap.Stringer("current_block", ev.Number),
+									zap.Bool("is_safe_block", ev.Safe),
+									zap.Stringer("current_blockhash", currentHash),
+									zap.String("eth_network", w.networkName),
+									zap.Uint64("expectedConfirmations", expectedConfirmations),
+									zap.Uint64("maxWaitConfirmations", w.maxWaitConfirmations),
+								)
+								ethMessagesOrphaned.WithLabelValues(w.networkName, "timeout").Inc()
+								delete(w.pending, key)
+								continue
+							}
+							logger.Warn("transaction could not be fetched",
+								zap.Stringer("tx", pLock.message.TxHash),
+								zap.Stringer("blockhash", key.BlockHash),
+								zap.Stringer("emitter_address", key.EmitterAddress),
+								zap.Uint64("sequence", key.Sequence),
+								zap.Stringer("current_block", ev.Number),
+								zap.Bool("is_safe_block", ev.Safe),
+								zap.Stringer("current_blockhash", currentHash),
+								zap.String("eth_network", w.networkName),
+								zap.Error(err))
 							continue
 						}
 
@@ -497,21 +514,6 @@ func (w *Watcher) Run(ctx context.Context) error {
 								zap.Error(err))
 							delete(w.pending, key)
 							ethMessagesOrphaned.WithLabelValues(w.networkName, "tx_failed").Inc()
-							continue
-						}
-
-						// Any error other than "not found" is likely transient - we retry next block.
-						if err != nil {
-							logger.Warn("transaction could not be fetched",
-								zap.Stringer("tx", pLock.message.TxHash),
-								zap.Stringer("blockhash", key.BlockHash),
-								zap.Stringer("emitter_address", key.EmitterAddress),
-								zap.Uint64("sequence", key.Sequence),
-								zap.Stringer("current_block", ev.Number),
-								zap.Bool("is_safe_block", ev.Safe),
-								zap.Stringer("current_blockhash", currentHash),
-								zap.String("eth_network", w.networkName),
-								zap.Error(err))
 							continue
 						}
 
